@@ -195,7 +195,7 @@ def c11_static(task):
             if isinstance(n, ast.Call) and isinstance(n.func, ast.Attribute) and may_alias(n.func.value, aliases):
                 if n.func.attr in INPLACE or any(k.arg == "inplace" for k in n.keywords):
                     bad.append("in-place call %s at line %d" % (ast.unparse(n.func), n.lineno))
-        out["results"].append(_ob("C11/%s/inputs-only-read" % q.split(".", 2)[-1], P + (("C19",) if q.endswith("setup_from_parent") else ()), not bad, dict(writes=bad)))
+        out["results"].append(_ob("C11/%s/inputs-only-read" % q.split(".", 2)[-1], P + (("C19",) if q.endswith("setup_from_parent") or q.endswith("StrategyBase.setup") else ()), not bad, dict(writes=bad)))
     # A-DEEPCOPY (copy.deepcopy gives a fully independent object graph) is only available while no class of the package customises copying
     hooks = []
     for mod in ("core", "algos", "backtest"):
@@ -244,7 +244,7 @@ def c11_static(task):
     out["results"].append(_ob("C11/no-state-is-kept-in-module-level-variables", P, not shared, dict(sites=shared)))
     # universe kept by a strategy is a copy, never the caller's frame
     ssrc = ast.unparse(prog.func("bt.core.StrategyBase.setup").node)
-    out["results"].append(_ob("C11/StrategyBase.setup/universe-is-copied", P, "funiverse = universe.copy()" in ssrc and "self._universe = funiverse" in ssrc, {}))
+    out["results"].append(_ob("C11/StrategyBase.setup/universe-is-copied", P + ("C19",), "funiverse = universe.copy()" in ssrc and "self._universe = funiverse" in ssrc, {}))
     # (c) determinism: no list()/iteration/indexing derived from a set's iteration order - set expressions in place, and
     # attributes that hold sets anywhere in bt/core.py or bt/backtest.py (assigned a set expression, or used with .add)
     def is_setexpr(x):
